@@ -24,6 +24,7 @@ import (
 )
 
 var verifDir = "/verif"
+var noEvidence bool
 
 type propSpec struct {
 	Scenario   string
@@ -31,6 +32,7 @@ type propSpec struct {
 	QuickRuns  int
 	ThorRuns   int
 	ResetCache bool
+	Chunk      int // runs per worker process (0: all); bounds growth of interned reflect types
 	Rule       string
 	Real       []string
 	Stub       []string
@@ -46,9 +48,14 @@ func registry() map[string]*propSpec {
 		}, QuickRuns: 240000, ThorRuns: 24000000,
 			Rule: "each run = 1-3 episodes on one Decoder (Reset between): generated/mutated JSON stream x option set x program over ReadToken/ReadValue/SkipValue/PeekKind x read schedule (1-byte, cuts, random sizes, empty reads, data+EOF, bufio, bytes.Buffer) x transient read faults x optional hand-off; compared call by call with the same program on the whole slice. distinct = distinct hash of (reader kind, buffer-capacity class, cut positions by lexeme class, fault counts, op 3-grams, outcome); non-trivial = a short/empty/faulty read, Reset or hand-off landed inside the run.",
 			Real: realAll, Stub: stubIO},
-		"C07": {Scenario: "enc", Make: func() scen.Scenario { return &scen.Enc{Mode: "c07"} }, QuickRuns: 200000, ThorRuns: 20000000,
+		"C07": {Scenario: "enc+arshal", Make: func() scen.Scenario {
+			return &scen.Multi{Parts: []scen.Part{{W: 3, S: &scen.Enc{Mode: "c07"}}, {W: 2, S: &scen.ArshalMarshal{Mode: "c07"}}}}
+		}, QuickRuns: 200000, ThorRuns: 20000000, Chunk: 12500, ResetCache: true,
 			Rule: "each run = a grammatical program of WriteToken/WriteValue calls derived from generated JSON texts (sizes straddling the 64..4096-byte buffer thresholds) x option set x writer kind x write-fault script (short writes, error after full write, zero-progress error, disk full at byte k; call-indexed and offset-keyed); compared call by call with the fault-free twin; at the end faults stop, containers are closed and a sentinel is written: the writer must hold exactly the fault-free bytes. distinct = hash of (fault counts by kind, largest write, output size class, number of calls, options); non-trivial = at least one write fault fired or the bytes.Buffer path was taken.",
 			Real: realAll, Stub: stubIO},
+		"C02": {Scenario: "arshal", Make: func() scen.Scenario { return &scen.ArshalMarshal{Mode: "c02"} }, QuickRuns: 160000, ThorRuns: 8000000, Chunk: 10000, ResetCache: true,
+			Rule: "each run = one Go value of a reflect-built random type (scalars incl. NaN/Inf and ill-formed strings, bytes, raw values holding arbitrary bytes, pointers, slices, arrays, maps with string/int/float/bool/TextMarshaler keys, structs with random tags incl. omitempty/omitzero/string/embed and >64 fields) with scripted peers (MarshalJSONTo / MarshalJSON / MarshalText / AppendText methods on value and pointer receivers, MarshalToFunc / MarshalFunc) executing drawn behaviours (one value, error, ErrUnsupported before/after use, zero or two values, open container, close the parent container, malformed bytes, re-entry, Reset, panic, ignored rejected calls) x option set, marshalled through Marshal, MarshalWrite (faulty writer) and MarshalEncode (inside a token context); nil error => output is exactly one value valid under the effective options by the independent recognizer. distinct = hash of (type, behaviour kinds present, output size class, context, options); non-trivial = a misbehaving peer, a write fault or a panic landed in the run.",
+			Real: realAll, Stub: append([]string{"user marshal methods and functions (scripted peers)"}, stubIO...)},
 		"C06": {Scenario: "enc", Make: func() scen.Scenario { return &scen.Enc{Mode: "c06"} }, QuickRuns: 200000, ThorRuns: 20000000,
 			Rule: "each run = a sequence of WriteToken/WriteValue calls drawn legal with p=0.7 given the reference push-down model (all token kinds, ill-formed strings, NaN/Inf, zero token, raw values valid/truncated/duplicate-bearing/garbage, deep mode 9998..10001) x option set; every call's verdict vs the documented grammar, observers after every call vs the model, rejected calls must not move observers, twin run with the rejected calls removed must match, delivered bytes at depth 0 vs the reference serializer. distinct = hash of (call 2-grams, number of rejected calls, final depth, options); non-trivial = at least one rejected call.",
 			Real: realAll, Stub: stubIO},
@@ -534,6 +541,9 @@ func cmdCheck(args []string) int {
 		total = total * m / 100
 	}
 	per := (total + *nw - 1) / *nw
+	if os.Getenv("VERIF_NO_EVIDENCE") != "" {
+		noEvidence = true
+	}
 	t0 := time.Now()
 	tmp, err := os.MkdirTemp(filepath.Join(verifDir, "bin"), "run-")
 	if err != nil {
@@ -541,41 +551,58 @@ func cmdCheck(args []string) int {
 		return 2
 	}
 	defer os.RemoveAll(tmp)
-	type wp struct {
-		cmd *exec.Cmd
-		out string
+	chunk := per
+	if spec.Chunk > 0 && spec.Chunk < per {
+		chunk = spec.Chunk
 	}
-	var procs []wp
+	type slotResult struct {
+		res []*workerResult
+		err error
+	}
+	ch := make(chan slotResult, *nw)
 	for w := 0; w < *nw; w++ {
-		out := filepath.Join(tmp, fmt.Sprintf("w%d.json", w))
-		cmd := exec.Command(os.Args[0], "worker", "-prop", *prop, "-tier", *tier, "-seed", fmt.Sprint(seed), "-w", fmt.Sprint(w), "-runs", fmt.Sprint(per), "-out", out)
-		cmd.Stderr = os.Stderr
-		cmd.Env = append(os.Environ(), "VERIF_DIR="+verifDir)
-		if err := cmd.Start(); err != nil {
-			fmt.Fprintln(os.Stderr, "cannot start worker:", err)
-			return 2
-		}
-		procs = append(procs, wp{cmd, out})
+		go func(w int) {
+			var sr slotResult
+			for first := 0; first < per; first += chunk {
+				n := chunk
+				if first+n > per {
+					n = per - first
+				}
+				out := filepath.Join(tmp, fmt.Sprintf("w%d-%d.json", w, first))
+				cmd := exec.Command(os.Args[0], "worker", "-prop", *prop, "-tier", *tier, "-seed", fmt.Sprint(seed), "-w", fmt.Sprint(w), "-first", fmt.Sprint(first), "-runs", fmt.Sprint(n), "-out", out)
+				cmd.Stderr = os.Stderr
+				cmd.Env = append(os.Environ(), "VERIF_DIR="+verifDir)
+				if err := cmd.Run(); err != nil {
+					sr.err = fmt.Errorf("worker %d (runs %d..%d): %v", w, first, first+n, err)
+					break
+				}
+				b, err := os.ReadFile(out)
+				if err != nil {
+					sr.err = err
+					break
+				}
+				var r workerResult
+				if err := json.Unmarshal(b, &r); err != nil {
+					sr.err = err
+					break
+				}
+				sr.res = append(sr.res, &r)
+				if len(r.Violations) >= 3 {
+					break
+				}
+			}
+			ch <- sr
+		}(w)
 	}
 	var results []*workerResult
 	trouble := false
-	for _, p := range procs {
-		if err := p.cmd.Wait(); err != nil {
-			fmt.Fprintln(os.Stderr, "worker failed:", err)
+	for w := 0; w < *nw; w++ {
+		sr := <-ch
+		if sr.err != nil {
+			fmt.Fprintln(os.Stderr, "worker failed:", sr.err)
 			trouble = true
-			continue
 		}
-		b, err := os.ReadFile(p.out)
-		if err != nil {
-			trouble = true
-			continue
-		}
-		var r workerResult
-		if err := json.Unmarshal(b, &r); err != nil {
-			trouble = true
-			continue
-		}
-		results = append(results, &r)
+		results = append(results, sr.res...)
 	}
 	if trouble {
 		fmt.Println("TROUBLE: a worker process failed; no verdict")
@@ -652,8 +679,13 @@ func cmdCheck(args []string) int {
 		fmt.Printf("KNOWN-FINDING: property=%s class=%s site=%s %s (reproduced %d times in this run)\n", k.Property, k.Class, k.Site, k.Text, n)
 	}
 	wall := time.Since(t0).Seconds()
-	writeEvidence(*prop, *tier, seed, spec, m, len(sigs), len(nsigs), wall, *nw, confirmed)
+	if !noEvidence {
+		writeEvidence(*prop, *tier, seed, spec, m, len(sigs), len(nsigs), wall, *nw, confirmed)
+	}
 	fmt.Printf("%s %s: runs=%d steps=%d nontrivial=%d distinct_signatures=%d (nontrivial %d) aborted_other=%d wall=%.1fs\n", *prop, *tier, m.Runs, m.Steps, m.Nontrivial, len(sigs), len(nsigs), m.Aborted, wall)
+	for k, n := range m.AbortedKeys {
+		fmt.Printf("  (other property, not this check's to report) %s x%d\n", k, n)
+	}
 	for _, l := range lines {
 		fmt.Println(l)
 	}
